@@ -39,6 +39,7 @@ type GhostDecl struct {
 	Name string
 	Typ  string
 	Init *Expr
+	Quiet bool // `quiet`: calls whose target is unknown are assumed not to change it (only contracts naming it do); listed
 }
 
 type FuncContract struct {
@@ -56,6 +57,9 @@ type FuncContract struct {
 	Pure       bool
 	Concurrent bool
 	Trusted    bool // external assumption (spec file)
+	AllCallers bool // `allcallers`: every module function that calls it is verified for its preconditions
+	AutoCallerOf string // synthesized: the function is verified only because it calls the `allcallers` function named here
+	Captures   []*Clause // `captures e`: facts about captured variables, proved where the closure is created, assumed at its entry
 	ArithMath  bool // integer + - * treated as mathematical (no wrap-around) in this function: a listed assumption
 	File       string
 	Line       int
@@ -180,6 +184,12 @@ func (cs *ContractSet) isGhostGlobal(name string) bool {
 	return false
 }
 
+// ghostQuiet: the ghost global name of package scope is declared `quiet`.
+func (cs *ContractSet) ghostQuiet(name, scope string) bool {
+	g, ok := cs.ghosts[scope+"::"+name]
+	return ok && g.Quiet
+}
+
 // ghostInScope: a ghost global called name is declared in package scope (short path).
 func (cs *ContractSet) ghostInScope(name, scope string) bool {
 	_, ok := cs.ghosts[scope+"::"+name]
@@ -223,7 +233,7 @@ func (cs *ContractSet) forFunc(fn *ssa.Function) *FuncContract {
 
 var clauseKW = map[string]bool{"func": true, "type": true, "pure": true, "uf": true, "lemma": true, "ghost": true, "requires": true, "ensures": true,
 	"modifies": true, "decreases": true, "loop": true, "iterates": true, "concurrent": true, "props": true, "terminates": true,
-	"noinline": true, "callbackinv": true, "assert": true, "assume": true, "axiom": true, "assumelocked": true, "ghostentry": true, "callback": true, "arith": true, "nonnil": true, "volatile": true, "deferred": true, "guards": true, "invariant": true, "latch": true, "params": true, "results": true, "trusted": true, "purefn": true}
+	"noinline": true, "callbackinv": true, "assert": true, "assume": true, "axiom": true, "assumelocked": true, "ghostentry": true, "callback": true, "arith": true, "nonnil": true, "volatile": true, "deferred": true, "guards": true, "invariant": true, "latch": true, "params": true, "results": true, "trusted": true, "purefn": true, "allcallers": true, "captures": true}
 
 var tagRe = regexp.MustCompile(`^(\w+)\[([A-Z0-9, ]+)\]`)
 
@@ -332,7 +342,12 @@ func (cs *ContractSet) LoadContractFile(path string, pkgKey string) error {
 			if len(fs) < 2 {
 				return fail("ghost needs name and type")
 			}
-			gd := &GhostDecl{Name: fs[0], Typ: strings.Join(fs[1:], " "), Scope: pkgKey}
+			quiet := false
+			if len(fs) > 2 && fs[len(fs)-1] == "quiet" {
+				quiet = true
+				fs = fs[:len(fs)-1]
+			}
+			gd := &GhostDecl{Name: fs[0], Typ: strings.Join(fs[1:], " "), Scope: pkgKey, Quiet: quiet}
 			if len(parts) == 2 {
 				e, err := ParseExpr(parts[1])
 				if err != nil {
@@ -445,7 +460,11 @@ func (cs *ContractSet) LoadContractFile(path string, pkgKey string) error {
 				return fail("props outside func block")
 			}
 			for _, p := range strings.Split(rest, ",") {
-				curF.Props = append(curF.Props, strings.TrimSpace(p))
+				p = strings.TrimSpace(p)
+				if !regexp.MustCompile(`^C\d\d$`).MatchString(p) {
+					return fail("props: %q is not a property id", p)
+				}
+				curF.Props = append(curF.Props, p)
 			}
 		case "terminates":
 			if curF != nil {
@@ -550,6 +569,19 @@ func (cs *ContractSet) LoadContractFile(path string, pkgKey string) error {
 			if curF != nil {
 				curF.Trusted = true
 			}
+		case "allcallers":
+			if curF != nil {
+				curF.AllCallers = true
+			}
+		case "captures":
+			if curF == nil {
+				return fail("captures outside func block")
+			}
+			e, err := ParseExpr(rest)
+			if err != nil {
+				return fail("%v", err)
+			}
+			curF.Captures = append(curF.Captures, &Clause{Kind: "captures", Props: props, Expr: e, Text: rest, File: path, Line: rc.line})
 		case "params":
 			if curF != nil {
 				for _, p := range strings.Split(rest, ",") {
